@@ -76,6 +76,16 @@ theorem pipelines_waited_and_closed :
     deferredClose "git/obj_iter.go" "iter.headerCh" = true ∧ deferredClose "git/batch_obj_iter.go" "iter.objCh" = true ∧
     deferredClose "git/ref_iter.go" "iter.refCh" = true := by decide
 
+/-- the driver waits for each feeder goroutine (`<-errChan`) only AFTER it has drained the iterator
+    the feeder writes to: a feeder blocked on a pipeline whose process died is released by the
+    pipeline's `Wait()`, which only `Next()` reaches — waiting first would hang (seeded change C10h).
+    In source order: … Next(objIter) … ← errChan … Next(objectIter)×4 … ← errChan. -/
+theorem feeders_awaited_after_draining :
+    (Gen.Cmds.syncSites.filter (fun s => s.1 == "sizes/graph.go" && s.2.2.2.2 == false)).map (fun s => (s.2.2.1, s.2.2.2.1)) =
+      [("Next", "objIter"), ("recv", "errChan"),
+       ("Next", "objectIter"), ("Next", "objectIter"), ("Next", "objectIter"), ("Next", "objectIter"), ("recv", "errChan")] := by
+  decide
+
 /-- non-vacuity: `cat-file --batch` exits with 3 after delivering everything (the F9 scenario) -/
 example : (scan (fun _ => ["report"]) [⟨.discover, .ok, true⟩, ⟨.revList, .ok, true⟩, ⟨.catFileBatch, .exit 3, true⟩]).exit = 1 := by decide
 
